@@ -1,19 +1,39 @@
-"""C04 — Confidence is exactly the configured score of what is reported."""
+"""C04 — Confidence is exactly the configured score of what is reported.
+
+Streams
+  align_scores     Aligner.align candidates on generated inputs, model correspondence + oracle (pipeline.oracle_confidence)
+  e2e_confidence   real CLI runs in the four output modes with non-default -sp/-dp/-su/-d/-ms/-bs from the exactly representable grid;
+                   oracle only, independent of the model: every captured candidate row is re-scored from the CMAP text, the captured
+                   segment peaks and the parameters the harness put on the command line, and the Confidence column of every record of
+                   every output file must be explained by a captured candidate of the same (query, reference, strand) and pair list
+                   (joined records: by a prefix of the first segment of one candidate plus a suffix of the first segment of another)
+  e2e_candidates   the captured candidates replayed through the pipeline model with the parameters of the command line
+                   (a CLI value wired to the wrong component shows up as a correspondence disagreement)
+"""
+import os
 from .C15 import AlignStream
 from .. import pipeline as pl
+from .. import e2e, e2e_streams as es
+from ..common import seeded_rng
 
 ID = 'C04'
-RULE = ('Aligner.align candidates (same generators as C15, with a larger share of non-default -sp/-dp/-su/-ms/-bs/-d drawn from the exactly '
-        'representable grid); every position score, segment score and the confidence are recomputed from the raw maps, the segment peak '
-        'and the parameters the harness passed. non-trivial = distinct case whose row has at least one pair and one unpaired label inside a segment')
-TRUSTED = ['adapter harness/pipeline.py']
-ASSUMPTIONS = ['coordinates are multiples of 0.5, dp in {0.5, 1, 2}: float arithmetic of the implementation is exact on these inputs']
+RULE = ('(1) Aligner.align candidates (generators of C15 with a larger share of non-default -sp/-dp/-su/-ms/-bs/-d from the exactly representable '
+        'grid): every position score, offset, segment score and the confidence recomputed from the raw maps, the segment peak and the parameters '
+        'passed; non-trivial = distinct case whose row has a pair and an unpaired label inside a segment. '
+        '(2) end-to-end CLI runs (4 output modes) with non-default scoring parameters: every captured candidate re-scored from the CMAP text, '
+        'Confidence of every record of every file explained by a captured candidate (joined: two trimmed first segments); '
+        'non-trivial = data set with at least one record. (3) captured candidates replayed through the model with the CLI parameters')
+TRUSTED = ['adapter harness/pipeline.py', 'capture extension harness/e2e_runner.py (registered through COMA\'s own extension mechanism)',
+           'independent CMAP/XMAP text parsers harness/e2e.py']
+ASSUMPTIONS = ['coordinates are multiples of 0.5, dp in {0.5, 1, 2}, integer sp/su/ms/bs/d: float arithmetic of the implementation is exact on these inputs',
+               'unmatchedPenalty <= 0 and minScore > 0 (otherwise the constructors / getScoredPosition raise ValueError and nothing is reported)',
+               'Confidence is written with two decimals; compared to within 0.005']
 
 
 class ScoreStream(AlignStream):
     name = 'align_scores'
-    prelude = pl.ALIGN_CHECK
     weights = dict(realistic=5, blocks=3, dense=3, boundary=2, folding=1, fragment=2)
+    quick_n, thorough_n = 1500, 30000       # the same generators run 4000 / 6000 cases through the same model in C15 / C01
 
     def gen(self, rng, tier):
         cases = super().gen(rng, tier)
@@ -35,4 +55,223 @@ class ScoreStream(AlignStream):
         return None
 
 
-STREAMS = [ScoreStream()]
+# ------------------------------------------------------------------------------------------------ end to end
+# every set changes all six scoring values; ms != bs and sp != -su everywhere so that swapped wiring changes the outcome
+SCORE_PARAM_SETS = [
+    ['-d', '1200', '-sp', '800', '-dp', '0.5', '-su', '-100', '-ms', '1500', '-bs', '900'],
+    ['-d', '2000', '-sp', '1000', '-dp', '2', '-su', '-500', '-ms', '500', '-bs', '2400', '-sj', '0.5'],
+    ['-d', '900', '-sp', '1500', '-dp', '1', '-su', '-300', '-ms', '3000', '-bs', '1000'],
+    ['-d', '1600', '-sp', '600', '-dp', '0.5', '-su', '-50', '-ms', '700', '-bs', '2000', '-p', '5'],
+    ['-d', '2500', '-sp', '1200', '-dp', '1', '-su', '0', '-ms', '2400', '-bs', '600'],
+    ['-d', '1000', '-sp', '400', '-dp', '0.5', '-su', '-400', '-ms', '400', '-bs', '1600', '-diff', '30000'],
+    ['-d', '1800', '-sp', '2000', '-dp', '2', '-su', '-1000', '-ms', '2000', '-bs', '4000', '-ss', '1'],
+    [],
+]
+TOL = 0.005
+
+
+def cmap_maps(case, out):
+    """the maps as an independent parser reads them from the CMAP files the run was given (fallback: the generated data set)"""
+    d = e2e.dataset_dir('ds%d_%d' % (case['ds_seed'], case['nq']))
+    rp, qp = os.path.join(d, 'r.cmap'), os.path.join(d, 'q.cmap')
+    if os.path.exists(rp) and os.path.exists(qp):
+        try:
+            refs, qs = e2e.read_cmap_indep(rp), e2e.read_cmap_indep(qp)
+            mo = es.maps_of(out)
+            if set(refs) == set(mo[0]) and set(qs) == set(mo[1]) and all(refs[k]['labels'] == mo[0][k]['labels'] for k in refs) \
+                    and all(qs[k]['labels'] == mo[1][k]['labels'] for k in qs):
+                return refs, qs
+        except Exception:
+            pass
+    return es.maps_of(out)
+
+
+def rescore_segment(seg, R, full, qlen, rev, P, errs, tag):
+    """list of (kind, rsite, qsite, score) of a captured segment with every score recomputed from label coordinates, the peak and P"""
+    peak = seg['peak']
+    res = []
+    for p in seg['pos']:
+        if p[0] == 'P':
+            rs, qsite = p[1], p[2]
+            if not (1 <= rs <= len(R) and 1 <= qsite <= len(full)):
+                errs.append('%spair (%d,%d) names a label that does not exist' % (tag, rs, qsite))
+                res.append(('P', rs, qsite, 0.0))
+                continue
+            qc = (qlen - 1 - full[qsite - 1]) if rev else full[qsite - 1]
+            off = qc - (R[rs - 1] - peak)
+            if abs(off) > P['d']:
+                errs.append('%spair (%d,%d) lies %.1f from the diagonal of its segment\'s peak %.1f, beyond -d %s' % (tag, rs, qsite, off, peak, P['d']))
+            res.append(('P', rs, qsite, P['sp'] - P['dp'] * abs(off)))
+        elif p[0] == 'R':
+            res.append(('R', p[1], 0, float(P['su'])))
+        else:
+            res.append(('Q', 0, p[1], float(P['su'])))
+    return res
+
+
+def candidates_of(case, out, errs):
+    """{(query, reference, reverse): [candidate]}; candidate = dict(pairs, conf (recomputed), segs (re-scored positions), first_pass)"""
+    P = es.params_of(case['extra'])
+    refs, qs = cmap_maps(case, out)
+    idx = {}
+    n = 0
+    for r in out['capture']:
+        if r['t'] != 'row':
+            continue
+        R = refs.get(r['r']); Q = qs.get(r['q'])
+        if R is None or Q is None:
+            errs.append('candidate names an unknown map (%s, %s)' % (r['q'], r['r']))
+            continue
+        ql = Q['labels']
+        full = [p - ql[0] for p in ql]
+        qlen = ql[-1] - ql[0] + 1
+        tag = 'candidate %d of query %d on reference %d (%s): ' % (r['index'], r['q'], r['r'], '-' if r['rev'] else '+')
+        segs = []
+        total = 0.0
+        seen_pairs = set()
+        for s in r['segs']:
+            sc = rescore_segment(s, R['labels'], full, qlen, r['rev'], P, errs, tag)
+            ssum = sum(x[3] for x in sc)
+            if abs(ssum - s['score']) > 1e-6:
+                errs.append('%ssegment at peak %.1f has score %.4f, its positions re-scored from the maps and the command line sum to %.4f'
+                            % (tag, s['peak'], s['score'], ssum))
+            labs_r = [x[1] for x in sc if x[0] in 'PR']; labs_q = [x[2] for x in sc if x[0] in 'PQ']
+            if len(set(labs_r)) != len(labs_r) or len(set(labs_q)) != len(labs_q):
+                errs.append('%sa label is counted twice inside the segment at peak %.1f' % (tag, s['peak']))
+            segs.append(sc)
+            total += ssum
+        if len(r['segs']) == 1 and segs[0]:
+            # a row with a single segment never went through conflict resolution: the segment is exactly what the factory built,
+            # so it must respect the -ms / -bs values of the command line (C13 run conditions, re-checked here on re-scored positions)
+            run = 0.0; best = 0.0
+            if total < P['ms'] - 1e-6:
+                errs.append('%sthe only segment scores %.2f, below -ms %s' % (tag, total, P['ms']))
+            for x in segs[0]:
+                run += x[3]
+                if run <= max(0.0, best - P['bs']) + 1e-9:
+                    errs.append('%sinside the only segment the running score falls to %.2f after a best of %.2f: a drop of -bs %s or more '
+                                'must end the segment' % (tag, run, best, P['bs']))
+                    break
+                best = max(best, run)
+        if abs(total - r['conf']) > 1e-6:
+            errs.append('%sconfidence %.4f, recomputed %.4f' % (tag, r['conf'], total))
+        pairs = [(x[1], x[2]) for sc in segs for x in sc if x[0] == 'P']
+        first_pass = r['shift'] == 0 and r['nq'] == len(full)
+        idx.setdefault((r['q'], r['r'], bool(r['rev'])), []).append(dict(pairs=pairs, conf=total, segs=segs, first_pass=first_pass, index=r['index']))
+        n += 1
+    return idx, n
+
+
+def joined_values(S1, S2, pairs):
+    """confidences a joined record with the given pair list can have if it consists of a prefix of segment S1 and a suffix of S2"""
+    p1 = [i for i, x in enumerate(S1) if x[0] == 'P']; p2 = [i for i, x in enumerate(S2) if x[0] == 'P']
+    k1 = [(S1[i][1], S1[i][2]) for i in p1]; k2 = [(S2[i][1], S2[i][2]) for i in p2]
+    vals = []
+    for i in range(0, min(len(k1), len(pairs)) + 1):
+        if k1[:i] != pairs[:i]:
+            break
+        rest = pairs[i:]
+        j = len(k2) - len(rest)
+        if j < 0 or k2[j:] != rest:
+            continue
+        lo1 = (p1[i - 1] + 1) if i > 0 else 0
+        hi1 = p1[i] if i < len(p1) else len(S1)
+        lo2 = (p2[j - 1] + 1) if j > 0 else 0
+        hi2 = p2[j] if j < len(p2) else len(S2)
+        for n in range(lo1, hi1 + 1):
+            a = sum(x[3] for x in S1[:n])
+            for m in range(lo2, hi2 + 1):
+                vals.append(a + sum(x[3] for x in S2[m:]))
+    return vals
+
+
+def check_record_confidence(r, cands, errs, tag=''):
+    key = (r['q'], r['r'], r['ori'] == '-')
+    cs = cands.get(key, [])
+    try:
+        conf = float(r['conf'])
+    except ValueError:
+        errs.append('%squery %d: Confidence %r is not a number' % (tag, r['q'], r['conf']))
+        return None
+    same = [c for c in cs if c['pairs'] == r['pairs']]
+    if any(abs(c['conf'] - conf) <= TOL for c in same):
+        return 'candidate'
+    vals = []
+    for a in cs:
+        for b in cs:
+            if a is b or not a['segs'] or not b['segs'] or a['first_pass'] == b['first_pass']:
+                continue
+            vals.extend(joined_values(a['segs'][0], b['segs'][0], r['pairs']))
+    if any(abs(v - conf) <= TOL for v in vals):
+        return 'joined'
+    if same:
+        errs.append('%squery %d on reference %d (%s): Confidence %s, but the candidate with these pairs re-scored from the maps and the command '
+                    'line gives %.2f' % (tag, r['q'], r['r'], r['ori'], r['conf'], same[0]['conf']))
+    elif vals:
+        errs.append('%squery %d on reference %d (%s): Confidence %s of a joined record; the two trimmed segments re-scored give %s'
+                    % (tag, r['q'], r['r'], r['ori'], r['conf'], ', '.join('%.2f' % v for v in sorted(set(vals))[:4])))
+    else:
+        errs.append('%squery %d on reference %d (%s): Confidence %s of a record that no captured candidate (or pair of candidates) explains'
+                    % (tag, r['q'], r['r'], r['ori'], r['conf']))
+    return None
+
+
+class Files(es.E2EStream):
+    name = 'e2e_confidence'
+    quick_n, thorough_n = 3, 12
+
+    def gen(self, rng, tier):
+        base = seeded_rng(getattr(self, 'seed', 0), 'e2e-shared')
+        n = self.quick_n if tier == 'quick' else self.thorough_n
+        nq = self.nq_quick if tier == 'quick' else self.nq_thorough
+        cases = [dict(ds_seed=base.randint(1, 10 ** 9), nq=nq, extra=SCORE_PARAM_SETS[k % len(SCORE_PARAM_SETS)]) for k in range(n)]
+        # fill the run cache for all data sets concurrently (each data set = 4 subprocesses); impl() then reads the cache
+        from concurrent.futures import ThreadPoolExecutor
+        with ThreadPoolExecutor(max_workers=4) as ex:
+            list(ex.map(es.run_dataset, cases))
+        return cases
+
+    def oracle(self, case, out):
+        errs = es.run_failures(out)
+        cands, n = candidates_of(case, out, errs)
+        if n == 0 and any(f.get('rows') for mo in out['modes'].values() for f in mo['files'].values()):
+            errs.append('records were written but no candidate was captured')
+        for m, fk, r in es.all_records(out):
+            check_record_confidence(r, cands, errs, tag='[mode %s file %s] ' % (m, fk))
+        return sorted(set(errs))[:4]
+
+    def classify(self, case, out):
+        k = super().classify(case, out)
+        try:
+            errs = []
+            cands, n = candidates_of(case, out, errs)
+            k.append('candidates=%s' % ('0' if n == 0 else '1-99' if n < 100 else '100+'))
+            kinds = set()
+            for m, fk, r in es.all_records(out):
+                kinds.add(check_record_confidence(r, cands, errs))
+            for x in kinds:
+                if x:
+                    k.append('record explained as ' + x)
+            if any(len(c['segs']) > 1 and sum(1 for s in c['segs'] if s) > 1 for cs in cands.values() for c in cs):
+                k.append('multi-segment candidate')
+        except Exception:
+            pass
+        return k
+
+
+class Candidates(es.CandidateStream):
+    name = 'e2e_candidates'
+    prelude = pl.ALIGN_CHECK
+    e2e_cls = Files
+    max_per_dataset = 120
+
+    def oracle(self, case, out):
+        return pl.oracle_confidence(case, out)
+
+    def classify(self, case, out):
+        k = super().classify(case, out)
+        k.append('params=%s' % (' '.join(case['dataset']['extra']) or 'default'))
+        return k
+
+
+STREAMS = [ScoreStream(), Files(), Candidates()]
